@@ -117,7 +117,35 @@ def origins(draw, allow_none: bool, none_weight: int = 1):
         return [0.0, 0.0, 0.0]
     if k > 11 - none_weight and allow_none:
         return None
+    if k in (1, 2):
+        # one of the entity's own stored points, passed exactly as the library hands it out (see own_points)
+        return {"own": draw(st.integers(0, 60))}
     return draw(point3_nz(10))
+
+
+def own_points(ent) -> list:
+    """The stored points of an entity as the library hands them out: Point.position of every point and the rows of
+    every point array (what curve.get_point(i) / curve.array[i] of a DiscreteCurve, Spline or PolyLine return:
+    numpy views), found by walking .parts"""
+    from classy_blocks.construct.array import Array
+    from classy_blocks.construct.point import Point
+
+    out, seen = [], set()
+
+    def walk(e):
+        if id(e) in seen:
+            return
+        seen.add(id(e))
+        if isinstance(e, Array):
+            out.extend(e.points[i] for i in range(len(e.points)))
+        elif isinstance(e, Point):
+            out.append(e.position)
+        else:
+            for part in e.parts:
+                walk(part)
+
+    walk(ent)
+    return out
 
 
 @st.composite
@@ -204,6 +232,7 @@ class Applied:
         self.mirrors = 0
         self.normals_unit = True
         self.default_origin = False
+        self.own_origin = False
         self.kinds: List[str] = []
         self.vias: List[str] = []
 
@@ -224,7 +253,22 @@ def apply_tf(ent, tf: List[dict], facts: dict, center_covariant: bool = True) ->
                 nxt = tf[i + len(group)]
                 if not center_covariant and nxt["k"] in ("rotate", "scale") and nxt["origin"] is None:
                     break  # its default origin has to be read just before the step (see below)
+                if isinstance(nxt.get("origin"), dict):
+                    break  # "about this point of the entity" means the point as it is when the call is made
                 group.append(nxt)
+        # origins that are the entity's own points: the very object the library hands out goes in as the argument, the
+        # reference map uses its value at the time of the call
+        own_args = {}
+        resolved = []
+        for j, t in enumerate(group):
+            if isinstance(t.get("origin"), dict):
+                pts = own_points(ent)
+                view = pts[t["origin"]["own"] % len(pts)] if pts else np.array([1.0, 2.0, 3.0])
+                own_args[j] = view
+                t = dict(t, origin=[float(c) for c in view])
+                out.own_origin = True
+            resolved.append(t)
+        group = resolved
         needs_center = any(t["k"] in ("rotate", "scale") and t["origin"] is None for t in group)
         center = None
         if needs_center:
@@ -253,6 +297,9 @@ def apply_tf(ent, tf: List[dict], facts: dict, center_covariant: bool = True) ->
                 objs.append(tr.Mirror(a["normal"], a["origin"]))
                 out.normals_unit = out.normals_unit and is_unit(t["normal"])
             args.append(a)
+        for j, view in own_args.items():
+            args[j]["origin"] = view
+            objs[j].origin = view
         keep = [{k: (None if v is None else v.copy()) for k, v in a.items()} for a in args]
         try:
             with warnings.catch_warnings():
@@ -276,8 +323,10 @@ def apply_tf(ent, tf: List[dict], facts: dict, center_covariant: bool = True) ->
                 "transform-raised", f"{[t['k'] for t in group]} via {group[0]['via']}: {type(ex).__name__}: {ex}",
                 error=type(ex).__name__, step=[t["k"] for t in group], **facts,
             ) from None
-        for t, a, b in zip(group, args, keep):
+        for j, (t, a, b) in enumerate(zip(group, args, keep)):
             for name, v in a.items():
+                if j in own_args and name == "origin":
+                    continue  # part of the entity: it may move with it
                 if v is not None and not np.array_equal(v, b[name]):
                     raise Violation(
                         "argument-mutated", f"{t['k']} (via {t['via']}) changed its '{name}' argument {b[name]} -> {v}",
@@ -305,7 +354,7 @@ def _step_nontrivial(t: dict) -> Tuple[bool, bool]:
         moved = nrm(t["d"]) > 1e-6
         return moved, moved
     o = t["origin"]
-    off_origin = o is None or nrm(o) > 1e-6
+    off_origin = o is None or isinstance(o, dict) or nrm(o) > 1e-6
     if k == "scale":
         moved = abs(t["ratio"] - 1) > 1e-3
         return moved, moved and off_origin
@@ -326,7 +375,8 @@ def tf_labels(tf: List[dict]) -> List[str]:
         out.append("via=" + ("method" if t["via"] == "m" else "list"))
         if "origin" in t:
             o = t["origin"]
-            out.append("origin=default" if o is None else ("origin=0" if nrm(o) < 1e-6 else "origin!=0"))
+            out.append("origin=default" if o is None else "origin=own-point" if isinstance(o, dict) else
+                       ("origin=0" if nrm(o) < 1e-6 else "origin!=0"))
         v = t.get("axis", t.get("normal"))
         if v is not None:
             out.append("dir=" + ("unit" if is_unit(v) else "non-unit") + ("/aligned" if is_aligned(v) else "/general"))
